@@ -10,7 +10,7 @@ from fractions import Fraction
 import numpy as np
 from common import *
 
-IMPORTS = ("From CV Require Import Base.Cmp Base.QcLin Model.C07_Adj.\n"
+IMPORTS = ("From CV Require Import Base.Cmp Base.QcLin Model.C07_Adj Model.C07_Input.\n"
            "From Coq Require Import QArith Qcanon.")
 RULE = ("configuration lattice: backing (dense/csc/csr matrix, allocating function pair, function pair returning views / its argument / its argument modified in place / lists) x domain geometry x range geometry "
         "(int, Continuous1D, Discrete, Image2D visual_only | Image2D C/F, 2-tuple, Continuous2D | StepExpansion(mean) | "
@@ -298,6 +298,9 @@ def impl_pair(kind, n, par=None):
             bufA[:] = Mw.T @ y
             return bufA
         return fw, aw, Mw, "outputs-alias"
+    if kind == "matmul":                        # the plain pair x |-> M @ x, y |-> M.T @ y: broadcasts over 2-d batches of columns
+        Mm = np.array(par, dtype=float)
+        return (lambda x: Mm @ x), (lambda y: Mm.T @ y), Mm, False
     if kind == "inplace_scale":                 # modifies its argument and returns it
         c = float(par)
         def f(x):
@@ -409,6 +412,11 @@ def build_model(meta):
     if backing in ("dense", "csc", "csr", "coo", "lil", "dia", "bsr", "dok", "fortran", "intdtype"):
         Aobj = {"dense": lambda a: a, "csc": sp.csc_matrix, "csr": sp.csr_matrix, "coo": sp.coo_matrix, "lil": sp.lil_matrix, "dia": sp.dia_matrix,
                 "bsr": sp.bsr_matrix, "dok": sp.dok_matrix, "fortran": np.asfortranarray, "intdtype": lambda a: a.astype(np.int64)}[backing](A)
+        if ms.get("mat_dtype"):                 # the same numbers stored with another dtype (int32 / int64 / float32 / bool)
+            Ac = A.astype(np.dtype(ms["mat_dtype"]))
+            if not np.array_equal(Ac.astype(float), A):
+                raise ValueError("matrix is not representable in dtype %s" % ms["mat_dtype"])
+            Aobj = Ac if backing == "dense" else {"csc": sp.csc_matrix, "csr": sp.csr_matrix}[backing](Ac)
         kw = {}
         if not ms.get("infer_geom"):
             kw = dict(range_geometry=R.obj, domain_geometry=D.obj)
@@ -1220,6 +1228,257 @@ def reassign_case(meta, cell):
     return cases
 
 
+# ------------------------------------------------------------------------------------------------
+# the INPUT-FORM lattice: form (ndarray / CUQIarray / Samples / 2-d batch, parameters or function values) x dtype x layout
+# ------------------------------------------------------------------------------------------------
+DTYPES = ["float64", "float32", "int64", "int32", "bool"]
+COQ_DT = {"float64": "DF64", "float32": "DF32", "int64": "DI64", "int32": "DI32", "bool": "DBool"}
+DT_CLASS = {"float64": "float", "float32": "float", "int64": "int", "int32": "int", "bool": "bool"}
+INFORMS = ["arr_par", "arr_fun", "cuqi_par", "cuqi_fun", "samples_par", "samples_fun", "batch_par", "batch_fun"]
+INFORM_COQ = {"arr": ("FArr", "WNdarray", "ndarray"), "cuqi": ("FCuqi", "WCuqi", "CUQIarray"), "samples": ("FSamples", "WSamples", "Samples"), "batch": ("FBatch", "WNdarray", "ndarray")}
+INCALLS = ["forward", "adjoint", "T.forward", "T.adjoint", "matmul"]
+
+
+def class_values(rng, cls, n):
+    if cls == "float":
+        return [rng.randint(-12, 12) / 4.0 for _ in range(n)]
+    if cls == "int":
+        return [rng.randint(-3, 3) for _ in range(n)]
+    return [rng.randint(0, 1) for _ in range(n)]
+
+
+def inform_values(rng, G):
+    """per dtype class: one parameter vector and one function value (C-order flat) of the geometry the input lives on"""
+    return {cls: {"p": class_values(rng, cls, G.par_dim), "f": class_values(rng, cls, G.fun_dim)} for cls in ("float", "int", "bool")}
+
+
+def relayout(a, layout):
+    """the same values in another memory layout: a strided window for vectors, Fortran order for 2-d / 3-d arrays"""
+    if layout == "C":
+        return np.ascontiguousarray(a)
+    if a.ndim == 1:
+        big = np.zeros(2 * len(a), dtype=a.dtype)
+        big[::2] = a
+        return big[::2]
+    return np.asfortranarray(a)
+
+
+@guarded
+def inform_case(meta, cell):
+    """one (model, call, input form): the call on every dtype x layout of the same numbers.  Correspondence: values against the model's
+    exact map (column by column for Samples / batches), the dtype and the container of the result against the model's dtype flow.
+    Oracle (implementation only): every dtype / layout / form gives the values of the plain float64 ndarray call; a Samples result is
+    float64; float operator data never give an integer / bool result; forward(Samples(I)) is get_matrix() and adjoint(Samples(I)) its
+    transpose."""
+    from cuqi.array import CUQIarray
+    from cuqi.samples import Samples
+    m = build_model(meta)
+    mod = m.obj
+    call, form, vals = meta["call"], meta["form"], meta["vals"]
+    kind, rep = form.split("_")
+    is_fun = rep == "fun"
+    opdt = meta.get("opdt", "float64")
+    on_T = call.startswith("T.")
+    target = mod.T if on_T else mod
+    u = cbool(bool(on_T and getattr(target, "_forward_func", None) is getattr(mod, "_adjoint_func", 0)))
+    mcoq = "(lmT_gen %s %s %s)" % (u, cnat(m.ncols_T), m.coq) if on_T else m.coq
+    fwd_like = call in ("forward", "matmul", "T.forward")
+    dom_side = call in ("forward", "matmul", "T.adjoint")               # the input lives on the model's domain geometry
+    Gin, Gout = (m.D, m.R) if dom_side else (m.R, m.D)
+    gin = mod.domain_geometry if dom_side else mod.range_geometry
+    if call == "matmul":
+        fn = lambda a, **k: target @ a
+    else:
+        fn = getattr(target, call.split(".")[-1])
+    kw = {"is_par": False} if is_fun else {}
+    n_in = Gin.fun_dim if is_fun else Gin.par_dim
+    shape_in = tuple(Gin.fun_shape) if is_fun else (Gin.par_dim,)
+    units = [[1 if i == j else 0 for i in range(n_in)] for j in range(n_in)]
+    exact = m.exact
+
+    def columns_of(cls):
+        return units + [vals[cls]["f" if is_fun else "p"]]
+
+    def build_input(cls, dt, layout):
+        if kind in ("arr", "cuqi"):
+            a = relayout(np.array(vals[cls]["f" if is_fun else "p"], dtype=float).reshape(shape_in).astype(np.dtype(dt)), layout)
+            return a if kind == "arr" else CUQIarray(a, is_par=not is_fun, geometry=gin)
+        a = relayout(np.stack([np.array(c, dtype=float).reshape(shape_in) for c in columns_of(cls)], axis=-1).astype(np.dtype(dt)), layout)
+        return a if kind == "batch" else Samples(a, geometry=gin, is_par=not is_fun)
+
+    def run(x):
+        try:
+            with warnings.catch_warnings():
+                warnings.simplefilter("ignore")
+                out = fn(x, **kw)
+            wrap = type(out).__name__
+            arr = np.asarray(out.samples if isinstance(out, Samples) else out)
+            dtn = str(arr.dtype)
+            a = arr.astype(float)
+            if kind in ("arr", "cuqi"):
+                if a.ndim != 1 or not np.all(np.isfinite(a)):
+                    return {"val": "shape %s" % (a.shape,), "dt": dtn, "wrap": wrap}
+                return {"val": [float(t) for t in a], "dt": dtn, "wrap": wrap}
+            if a.ndim != 2 or not np.all(np.isfinite(a)):
+                return {"val": "shape %s" % (a.shape,), "dt": dtn, "wrap": wrap}
+            return {"val": [[float(t) for t in a[:, j]] for j in range(a.shape[1])], "dt": dtn, "wrap": wrap}
+        except Exception as e:
+            return {"val": None, "dt": None, "wrap": "raised %s: %s" % (type(e).__name__, str(e)[:120])}
+
+    obs, ref = {}, {}
+    for cls in ("float", "int", "bool"):
+        # reference: the plain float64 contiguous ndarray call(s) on the same numbers
+        cols = [vals[cls]["f" if is_fun else "p"]] if kind in ("arr", "cuqi") else columns_of(cls)
+        r = []
+        for c in cols:
+            o1 = call_vec_raw(lambda a: fn(a, **kw), np.array(c, dtype=float).reshape(shape_in))
+            r.append(o1)
+        ref[cls] = r[0] if kind in ("arr", "cuqi") else r
+    for dt in DTYPES:
+        if dt == "bool" and opdt == "bool":
+            continue            # numpy's bool @ bool is the logical product, not the ring product: not CUQIpy's business
+        for layout in ("C", "L"):
+            obs["%s/%s" % (dt, layout)] = run(build_input(DT_CLASS[dt], dt, layout))
+
+    # ---- oracle ---------------------------------------------------------------------------------------------------------
+    detail, sig = None, ""
+    fcoq, wcoq, wname = INFORM_COQ[kind]
+    for key, o in obs.items():
+        dt = key.split("/")[0]
+        cls = DT_CLASS[dt]
+        r = ref[cls]
+        ex = exact or False
+        if not exact and dt == "float32":
+            close = lambda a, b: isinstance(a, list) and isinstance(b, list) and len(a) == len(b) and all(abs(p - q) <= 1e-5 * (1 + abs(q)) for p, q in zip(a, b))
+        else:
+            close = lambda a, b: same_vec(a, b, ex)
+        if kind in ("arr", "cuqi"):
+            okv = close(o["val"], r)
+        else:
+            okv = isinstance(o["val"], list) and len(o["val"]) == len(r) and all(close(a, b) for a, b in zip(o["val"], r))
+        if not okv:
+            detail = ("%s on a %s (%s) of dtype %s, layout %s gives %s [%s] but the plain float64 ndarray call%s on the same numbers give%s %s"
+                      % (call, wname, "function values" if is_fun else "parameters", dt, "contiguous" if key.endswith("/C") else "strided/Fortran", o["val"], o["wrap"],
+                         "" if kind in ("arr", "cuqi") else "s column by column", "s" if kind in ("arr", "cuqi") else "", r))
+            sig = "LinearModel.%s|input-form:%s,%s" % (call, form, DT_CLASS[dt] if dt not in ("float64",) else "float64")
+            break
+        if o["wrap"] != wname:
+            detail, sig = "%s on a %s of dtype %s returns a %s" % (call, wname, dt, o["wrap"]), "LinearModel.%s|input-form-type:%s" % (call, form)
+            break
+        if kind == "samples" and o["dt"] != "float64":
+            detail = "%s on Samples of dtype %s returns Samples whose array has dtype %s (values %s): the per-sample output buffer must be float" % (call, dt, o["dt"], o["val"])
+            sig = "LinearModel.%s|input-form-dtype:%s" % (call, form)
+            break
+        if opdt in ("float64", "float32") and not str(o["dt"]).startswith("float"):
+            detail = "%s on a %s of dtype %s returns dtype %s although the operator data are %s" % (call, wname, dt, o["dt"], opdt)
+            sig = "LinearModel.%s|input-form-dtype:%s" % (call, form)
+            break
+    ident_obs = None
+    if detail is None and form == "samples_par":
+        S = obs["int64/C"]["val"]
+        if isinstance(S, list):
+            colsI = S[:n_in]
+            ident_obs = transpose(colsI, Gout.par_dim)          # the array forward(Samples(I)).samples / adjoint(Samples(I)).samples
+            stored_wrong = m.backing != "function" and meta["model"].get("tp") != "deconv2d" and not hasattr(mod, "_par_matrix") and not (m.D.idmap and m.R.idmap)
+            asig = adj_signature(m, {"model": meta["model"]})
+            Gm = call_mat(mod.get_matrix)
+            if not stored_wrong and Gm is not None:
+                want = Gm if fwd_like == (not on_T) else transpose(Gm, m.D.par_dim)
+                what = "get_matrix()" if fwd_like == (not on_T) else "get_matrix().T"
+                skip = (what == "get_matrix().T" and asig.startswith(MODEL_EXPECTED)) or getattr(m.D, "nonlinear", False) or getattr(m.R, "nonlinear", False)
+                if not skip and not same_mat(ident_obs, want, exact):
+                    detail = "%s(Samples(np.eye(%d, dtype=int))).samples = %s but %s = %s" % (call, n_in, ident_obs, what, want)
+                    sig = "LinearModel.%s|samples-of-identity" % call
+
+    # ---- correspondence -------------------------------------------------------------------------------------------------
+    parts = []
+    bad = any(isinstance(o["val"], str) or o["dt"] not in (None,) + tuple(COQ_DT) or (o["val"] is not None and not o["wrap"] in ("ndarray", "CUQIarray", "Samples")) for o in obs.values())
+    if bad:
+        expr = "false"
+    else:
+        chk = "check_forward" if fwd_like else "check_adjoint"
+        crep = {"arr_par": "RArrayPar", "arr_fun": "RArrayFun", "cuqi_par": "RCuqiPar", "cuqi_fun": "RCuqiFun",
+                "samples_par": "RArrayPar", "samples_fun": "RArrayFun", "batch_par": "RArrayPar", "batch_fun": "RArrayFun"}[form]
+        enc_in = (lambda v: "(funval %s %s)" % (Gin.coq, enc_vec(v))) if is_fun else (lambda v: "(V1 %s)" % enc_vec(v))
+        seen = set()
+        for key, o in obs.items():
+            dt = key.split("/")[0]
+            cls = DT_CLASS[dt]
+            t = ctol(exact) if (exact or dt != "float32") else "tol6"
+            if kind in ("arr", "cuqi"):
+                e = "%s_rep %s %s %s %s %s" % (chk, t, mcoq, crep, enc_in(vals[cls]["f" if is_fun else "p"]), enc_opt(o["val"], enc_vec))
+            else:
+                ob = "None" if o["val"] is None else "(Some %s)" % clist([enc_vec(c) for c in o["val"]])
+                e = "%s_samples %s %s %s %s %s" % (chk, t, mcoq, crep, clist([enc_in(c) for c in columns_of(cls)]), ob)
+            if e not in seen:
+                seen.add(e)
+                parts.append(e)
+            if o["val"] is not None:
+                e = "%s_dt %s %s %s %s %s %s" % (chk, fcoq, cbool(is_fun), COQ_DT[opdt], mcoq, COQ_DT[dt], COQ_DT[o["dt"]])
+                if e not in seen:
+                    seen.add(e)
+                    parts.append(e)
+                e = "check_wrapper %s %s" % (fcoq, {"ndarray": "WNdarray", "CUQIarray": "WCuqi", "Samples": "WSamples"}[o["wrap"]])
+                if e not in seen:
+                    seen.add(e)
+                    parts.append(e)
+        if ident_obs is not None:
+            parts.append("%s_of_identity %s %s (Some %s)" % (chk, ctol(exact), mcoq, enc_mat(ident_obs)))
+        expr = " && ".join(parts)
+    cases = [Case(expr=expr, meta=dict(meta, observed={k: (o["dt"], o["wrap"]) for k, o in obs.items()}) if False else meta, cell=cell, kind="EXACT" if exact else "DECISION")]
+    if detail:
+        cases.append(Case(expr="true", meta=dict(meta, verdict="oracle"), cell="oracle-verdict/" + cell, trivial=True, impl_fail=detail, signature=sig))
+    inform_case.last = {"obs": obs, "ref": ref, "detail": detail, "sig": sig, "expr": expr}
+    return cases
+
+
+def inform_lattice(ctx, rng):
+    """backing x call x input form; dtype x layout inside each case"""
+    Q = lambda r, c: [[rng.randint(-12, 12) / 4.0 for _ in range(c)] for _ in range(r)]
+    Z = lambda r, c, lo=-3, hi=3: [[rng.randint(lo, hi) for _ in range(c)] for _ in range(r)]
+    vecgeo = True
+    models = [
+        ("dense", {"backing": "dense", "A": Q(2, 3), "D": ["cont1d", 3], "R": ["int", 2]}, "float64", True),
+        ("csc", {"backing": "csc", "A": Q(2, 3), "D": ["discrete", 3], "R": ["cont1d", 2]}, "float64", True),
+        ("csr-int32", {"backing": "csr", "A": Z(3, 2), "D": ["int", 2], "R": ["int", 3], "mat_dtype": "int32"}, "int32", True),
+        ("dense-int64", {"backing": "dense", "A": Z(2, 3), "D": ["cont1d", 3], "R": ["discrete", 2], "mat_dtype": "int64"}, "int64", True),
+        ("dense-float32", {"backing": "dense", "A": Q(2, 3), "D": ["int", 3], "R": ["cont1d", 2], "mat_dtype": "float32"}, "float32", True),
+        ("dense-bool", {"backing": "dense", "A": Z(2, 3, 0, 1), "D": ["cont1d", 3], "R": ["int", 2], "mat_dtype": "bool"}, "bool", True),
+        ("dense-int64@step", {"backing": "dense", "A": Z(2, 4), "D": ["step", 4, 2], "R": ["int", 2], "mat_dtype": "int64"}, "int64", True),
+        ("dense-float32@mapped", {"backing": "dense", "A": Q(2, 3), "D": ["mapped", 2, 1, ["cont1d", 3]], "R": ["mapped", 1, 4, ["discrete", 2]], "mat_dtype": "float32"}, "float32", True),
+        ("function-matmul", {"backing": "function", "impl": "matmul", "n": 3, "par": None, "A": Q(2, 3), "D": ["cont1d", 3], "R": ["int", 2]}, "float64", True),
+        ("function-matmul@step-range", {"backing": "function", "impl": "matmul", "n": 3, "par": None, "A": Q(4, 3), "D": ["int", 3], "R": ["step", 4, 2]}, "float64", True),
+        ("function-matmul@mapped", {"backing": "function", "impl": "matmul", "n": 3, "par": None, "A": Q(2, 3), "D": ["mapped", 2, 1, ["cont1d", 3]], "R": ["mapped", 1, 4, ["discrete", 2]]}, "float64", True),
+        ("function@imageF->imageC", {"backing": "function", "A": Q(3, 4), "D": ["image", 2, 2, "F"], "R": ["image", 3, 1, "C"]}, "float64", False),
+        ("function@tuple->cont2d", {"backing": "function", "A": Q(4, 4), "D": ["tuple", 2, 2], "R": ["cont2d", 2, 2]}, "float64", False),
+        ("dense@step", {"backing": "dense", "A": Q(2, 4), "D": ["step", 4, 2], "R": ["int", 2]}, "float64", True),
+        ("dense@kl", {"backing": "dense", "A": Q(2, 4), "D": ["kl", 4, 3, 1.5, 2.0], "R": ["int", 2]}, "float64", True),
+        ("matrix@image", {"backing": "dense", "A": Q(2, 3), "D": ["image", 3, 2, "C"], "R": ["image", 2, 2, "F"]}, "float64", False),
+        ("Deconvolution1D", {"tp": "deconv1d", "dim": 5, "PSF": [1, 2, 3], "BC": "zero"}, "float64", True),
+        ("Deconvolution2D", {"tp": "deconv2d", "dim": 3, "PSF": [[1, 0, 2], [0, 3, 1], [1, 1, 0]], "BC": "periodic"}, "float64", False),
+        ("Abel1D", {"tp": "abel", "dim": 4}, "float64", True),
+    ]
+    out = []
+    for label, ms, opdt, batches in models:
+        if ms.get("impl") == "matmul":
+            ms["par"] = ms["A"]
+        if "tp" in ms:
+            nD, nR = tp_dims(ms)
+            D = R = None
+        m0 = build_model({"model": ms})
+        for call in INCALLS:
+            dom_side = call in ("forward", "matmul", "T.adjoint")
+            Gin = m0.D if dom_side else m0.R
+            for form in INFORMS:
+                if form.startswith("batch") and not batches:
+                    continue
+                if call == "matmul" and form.endswith("_fun"):
+                    continue            # `model @ x` has no is_par argument
+                meta = {"op": "inform", "model": ms, "opdt": opdt, "call": call, "form": form, "vals": inform_values(rng, Gin)}
+                out.extend(inform_case(meta, "input-form/%s/%s/%s" % (label, call, form)))
+    return out
+
+
 @guarded
 def make_cases(meta, cell, trivial=False):
     """all Case objects of one (model, operation, x, y)"""
@@ -1522,6 +1781,9 @@ def run(ctx):
     # L22 the SHIPPED DEFAULTS (dim=128, Gauss PSF of size 21 resp. dim): too large for the model, so oracle only
     cases.extend(defaults_cases(rng))
 
+    # ---- 2k. INPUT FORMS x dtype x layout of forward / adjoint / T / @ for every backing (lesson L20 beyond plain arrays) -------
+    cases.extend(inform_lattice(ctx, rng))
+
     # ---- 2f. gradient of the LinearModel (= adjoint for identity-type geometries, refused for the others, chain rule through a
     #          user geometry that brings its own gradient) -------------------------------------------------------------
     grad_models = [("dense", ["cont1d", 3], ["int", 2]), ("csr", ["discrete", 2], ["cont1d", 3]), ("function", ["int", 3], ["discrete", 3]),
@@ -1678,6 +1940,9 @@ def _verdict(meta):
     if meta.get("op") == "gm_reassign":
         bad = [c for c in reassign_case(meta, "replay") if c.impl_fail]
         return (bad[0].impl_fail, bad[0].signature) if bad else (None, "")
+    if meta.get("op") == "inform":
+        bad = [c for c in inform_case(meta, "replay") if c.impl_fail]
+        return (bad[0].impl_fail, bad[0].signature) if bad else (None, "")
     m = build_model(meta)
     return run_one(m, meta)[1]
 
@@ -1794,6 +2059,16 @@ def _replay_one(m):
         for c in reassign_case(m, "replay"):
             print("oracle:", c.impl_fail or "holds", "| signature:", c.signature)
             if c.expr != "true":
+                rc, out = eval_in_coq(IMPORTS, c.expr, tag="replay_C07")
+                print("model agrees with implementation:", out[-200:])
+        return
+    if m.get("op") == "inform":
+        for c in inform_case(m, "replay"):
+            print("oracle:", c.impl_fail or "holds", "| signature:", c.signature)
+            if c.expr != "true":
+                last = getattr(inform_case, "last", {})
+                print("implementation, per dtype/layout:", json.dumps(last.get("obs"), default=str)[:3000])
+                print("plain float64 ndarray reference:", json.dumps(last.get("ref"), default=str)[:1500])
                 rc, out = eval_in_coq(IMPORTS, c.expr, tag="replay_C07")
                 print("model agrees with implementation:", out[-200:])
         return
